@@ -31,10 +31,18 @@ pub fn result_class(r: &Real) -> u8 {
     }
 }
 
-/// Judge one strict parse. `probe_at`: event index whose model phase is wanted for the coverage matrix.
+/// Options of a run: entry points that take options run under the strict ones half of the time and
+/// under each of the three relaxed combinations otherwise.
+fn opts_for(entry: Entry, h: u64) -> (bool, bool) {
+    if !entry.takes_options() { return (false, false); }
+    match h % 6 { 0 => (true, false), 1 => (false, true), 2 => (true, true), _ => (false, false) }
+}
+
+/// Judge one parse (the unexpected-character, stream and UTF-8 clauses do not depend on the options; under
+/// relaxed options the surrogate clause is judged against a superset of what may be reported). `probe_at`: event index whose model phase is wanted for the coverage matrix.
 pub fn judge(sc: &StreamSc, obs: &Obs, probe_at: Option<usize>) -> (Judgement, Option<usize>, usize) {
     let d = sc.delivered();
-    let m = refpda::run_model(&d.items);
+    let m = refpda::run_model_with(&d.items, !sc.strict());
     let total = *m.offs.last().unwrap();
     let n = d.items.len();
     let decision = m.reject.map(|r| r.0).unwrap_or(n);
@@ -142,6 +150,10 @@ pub fn execute_c07(sc: &StreamSc, run: u64, st: &mut Stats, fault_kind: u8, faul
     if met { st.bump(kind_counter(fault_kind)); }
     st.cell(fault_kind, phase.unwrap_or(0) as u8, result_class(&obs.real));
     st.bump(entry_counter(sc.entry));
+    if !sc.strict() {
+        st.bump("runs_under_relaxed_options");
+        if let Real::Err(e) = &obs.real { if matches!(e.err, PErr::InvalidCp { .. } | PErr::MissingLow { .. } | PErr::InvalidLow { .. }) { st.bump("surrogate_errors_judged_under_relaxed_options"); } }
+    }
     if obs.polls > 0 { st.maxi("max_polls_past_decision_point", (obs.consumed.saturating_sub(decision)) as u64); st.maxi("max_polls_after_exhaustion", obs.polls_after_exhaustion as u64); }
     match &j {
         Judgement::Note(k) => st.note(k, run, || format!("{:?} -> {}", sc.to_json().get("text_readable"), obs.real.describe())),
@@ -312,7 +324,7 @@ impl CharSweep {
         if kind != K_NONE { faults.push(apply(&mut evs, kind, k, c, aux)); }
         let es = entries_for(profile != 0, kind == K_FAIL);
         let entry = es[(mix(run, 3) % es.len() as u64) as usize];
-        let mut sc = StreamSc { entry, target: Target::Value, opts: (false, false), src: Src::Events(evs), faults, context: 0, hint: 0, reenter_at: 0, panic_at: 0 };
+        let mut sc = StreamSc { entry, target: Target::Value, opts: opts_for(entry, mix(run, 11)), src: Src::Events(evs), faults, context: 0, hint: 0, reenter_at: 0, panic_at: 0 };
         sc.normalise();
         (sc, kind, if kind == K_NONE { None } else { Some(k) })
     }
@@ -366,7 +378,7 @@ impl ByteSweep {
         let mut faults = vec![];
         if kind != K_NONE { faults.push(apply_bytes(&mut b, kind, k, aux)); }
         let entry = if mix(run, 5) & 1 == 0 { Entry::SliceWith } else { Entry::Slice };
-        (StreamSc { entry, target: Target::Value, opts: (false, false), src: Src::Bytes(b), faults, context: 0, hint: 0, reenter_at: 0, panic_at: 0 }, kind, if kind == K_NONE { None } else { Some(k) })
+        (StreamSc { entry, target: Target::Value, opts: opts_for(entry, mix(run, 11)), src: Src::Bytes(b), faults, context: 0, hint: 0, reenter_at: 0, panic_at: 0 }, kind, if kind == K_NONE { None } else { Some(k) })
     }
 }
 
@@ -453,7 +465,7 @@ impl Search {
                 if first.map(|f| k < f.1).unwrap_or(true) { first = Some((kind, k.min(b.len()))); }
             }
             let entry = if rng.chance(1, 2) { Entry::SliceWith } else { Entry::Slice };
-            let sc = StreamSc { entry, target: Target::Value, opts: (false, false), src: Src::Bytes(b), faults, context: 0, hint: 0, reenter_at: 0, panic_at: 0 };
+            let sc = StreamSc { entry, target: Target::Value, opts: opts_for(entry, rng.next_u64()), src: Src::Bytes(b), faults, context: 0, hint: 0, reenter_at: 0, panic_at: 0 };
             let at = byte_fault_item(&sc, first.map(|f| f.1));
             return (sc, first.map(|f| f.0).unwrap_or(K_NONE), at);
         }
@@ -476,7 +488,7 @@ impl Search {
         }
         let es = entries_for(profile != 0, has_fail);
         let entry = *rng.pick(es);
-        let mut sc = StreamSc { entry, target: Target::Value, opts: (false, false), src: Src::Events(evs), faults, context: 0, hint: 0, reenter_at: 0, panic_at: 0 };
+        let mut sc = StreamSc { entry, target: Target::Value, opts: opts_for(entry, rng.next_u64()), src: Src::Events(evs), faults, context: 0, hint: 0, reenter_at: 0, panic_at: 0 };
         sc.truncate_after_terminal();
         sc.normalise();
         (sc, first.map(|f| f.0).unwrap_or(K_NONE), first.map(|f| f.1))
